@@ -42,7 +42,8 @@ def run(chk):
                                   composed_theorems=["C13_real_codec_update_file", "C13_real_codec_inplace", "C13_real_codec_rebuilt", "C13_real_codec_example",
                                                     "C13_written_edited_then_faulty_update", "C13_written_then_faulty_update",
                                                     "C13_sample_written_file_is_bytes", "C13_byte_written_file_is_bytes", "C13_channel_written_file_is_bytes",
-                                                    "C13_byte_written_edited_then_faulty_update", "C13_channel_written_edited_then_faulty_update"],
+                                                    "C13_byte_written_edited_then_faulty_update", "C13_channel_written_edited_then_faulty_update",
+                                                    "C13_byte_written_then_faulty_update", "C13_channel_written_then_faulty_update"],
                                   composed_requires=["FlacE2EUpd.Props_FaultsE2E", "FlacE2EUpd.Props_WrittenFaults"])
     if missing:
         proof_ok = False
